@@ -25,7 +25,7 @@ theorem get_binary_noop (c : Cfg) (hc : c.Valid) {x : Coder} (hcap : x.cap = non
   exact getBinary_guard hcap (getBinary_marker hc hcap hst hv)
 
 /-- Bounded backends (`Cursor` of any capacity): whenever the guard can be created, dropping it
-    restores the coder exactly. When it cannot (backend full), the repaired code (`fix:` D17)
+    restores the coder exactly. When it cannot (backend full), the repaired code (`fix:` D21)
     pops what it had written, which the model expresses by not producing a new coder at all;
     the correspondence check exercises exactly this path (`ansc … | getc`). -/
 theorem get_compressed_noop_bounded (c : Cfg) {x y : Coder} (h : getCompressedThenDrop c x = some y) :
